@@ -51,11 +51,13 @@ def value_compare(src_bytes, out_bytes, opts, seed, n_inputs=2):
             res["status"] = "unavailable:reference:" + str(e)[:60]
             return res
         outs = []
+        inexact = False
         try:
             for g in (0, 1):  # two different garbage fills: the result must not depend on them
                 vr = runtime.ValueRun(plan, seeds.derive(seed, "garbage", k, g))
                 outs.append(vr.run(xs))
                 res["weight_logs"] = vr.weight_logs
+                inexact = vr.inexact
         except (arith.NotModelled, refint.Unsupported) as e:
             res["status"] = "unavailable:datapath:" + str(e)[:60]
             return res
@@ -77,6 +79,12 @@ def value_compare(src_bytes, out_bytes, opts, seed, n_inputs=2):
                 res["unverifiable_outputs"] = res.get("unverifiable_outputs", 0) + 1  # an approximate operator feeds a rescaling one
                 continue
             t = int(t)
+            if inexact:
+                # the hardware tanh / sigmoid unit took part: its bit-level behaviour is not documented, the model of it is the exact
+                # function rounded once.  Such results are only checked for gross errors: 1 step of an 8-bit output on top of the
+                # reference's own tolerance, 1/1000 of the range of a 16-bit one
+                t = max(t + 1, 2) if sm.tensors[so].type in ("INT8", "UINT8") else max(t, 32)
+                res["inexact_outputs"] = res.get("inexact_outputs", 0) + 1
             if d.size and d.max() > t:
                 i = int(np.argmax(d))
                 res["mismatches"].append(dict(oracle="value_mismatch", output=j, tname=sm.tensors[so].name, tolerance=t, max_abs_diff=int(d.max()), n_diff=int((d > t).sum()),
@@ -101,6 +109,12 @@ class ValCheck(checks_net.NetCheck):
     with_tags = False
 
     def gen_recipe(self, r):
+        if r.random() < 0.1:
+            # tall feature maps through convolutions and table activations: cascades whose operators run as several stripes
+            cfg = netgen.swarm_config(r, "stripes")
+            cfg["fams"] = ["conv", "dw", "lut", "lut", "pool", "act"]
+            cfg["size"] = "tall"
+            return netgen.gen_recipe(r, cfg)
         cfg = netgen.swarm_config(r, "value")
         cfg["fams"] = [f for f in cfg["fams"] if f not in ("cpu",)] or ["conv"]
         if r.random() < 0.85:
